@@ -42,6 +42,8 @@ def solver_spec(draw):
         return {"recipe": recipe, "params": None}
     params = {"r": draw(gen.r_values), "eps": draw(gen.eps_values(min(recipe["n"], 5), 10, cheap=False)),
               "itersLimit": draw(st.sampled_from([1, 2, 5, 20, 40, 40]))}
+    if draw(st.integers(0, 3)) == 0:
+        params["refine"] = True          # refineSolution=True: Solve ends with the local refinement
     spec = {"recipe": recipe, "params": params}
     if draw(st.integers(0, 3)) == 0:
         # one SolverParameters object handed to several solvers: this solver re-uses the object (and therefore
@@ -53,7 +55,8 @@ def solver_spec(draw):
 def solo_reference(spec):
     """(T: first CAP trials alone, n*: stop index of a plain Solve, capped)."""
     dflt = spec["params"] is None
-    ref = Run(spec["recipe"], spec["params"], record=False, default_params=dflt)
+    refine = bool(spec["params"] and spec["params"].get("refine"))
+    ref = Run(spec["recipe"], spec["params"], record=False, default_params=dflt, refine=refine)
     try:
         ref.step(CAP)
     except Exception as e:
@@ -62,6 +65,8 @@ def solo_reference(spec):
     T = [(y, v) for _, y, v in ref.problem.log]
     if dflt:
         return T, None           # default itersLimit=20000: Solve is not used on these
+    if refine:
+        return T, "refine"       # the solo reference of a refining Solve is computed when Solve is called
     plain = Run(spec["recipe"], spec["params"], record=False)
     plain.solve()
     return T, len(plain.problem.log)
@@ -71,16 +76,26 @@ class Live:
     def __init__(self, spec, sp_obj=None):
         self.spec = spec
         self.T, self.nstar = solo_reference(spec)
-        self.run = Run(spec["recipe"], spec["params"], default_params=spec["params"] is None, sp_obj=sp_obj)
+        self.refine = bool(spec["params"] and spec["params"].get("refine"))
+        self.run = Run(spec["recipe"], spec["params"], default_params=spec["params"] is None, sp_obj=sp_obj,
+                       refine=self.refine)
         self.steps = 0
         self.solutions = []      # Solution objects handed out
         self.dead = False        # hit float resolution: no further operations
+        self.frozen = None
 
     def expected_len(self):
         return len(self.run.problem.log)
 
     def check(self, who):
         log = [(y, v) for _, y, v in self.run.problem.log]
+        if getattr(self, "frozen", None) is not None:
+            sol = self.run.results()
+            now = (best_of(sol), sol.numberOfGlobalTrials, sol.numberOfLocalTrials)
+            if log != self.frozen[0] or now != self.frozen[1]:
+                fail("%sthe finished (refined) solver changed: result %r, was %r; %d evaluations, were %d" %
+                     (who, now, self.frozen[1], len(log), len(self.frozen[0])))
+            return
         if log != self.T[:len(log)]:
             fail("%sits evaluation log (%d trials) is no longer a prefix of the log of the same solver run alone" %
                  (who, len(log)))
@@ -160,7 +175,12 @@ class IsolationMachine(MachineMixin, RuleBasedStateMachine):
 
     def _solve(self, i):
         lv = self.live[i]
-        if lv.dead or lv.nstar is None or max(lv.nstar, lv.steps) > len(lv.T):
+        if lv.dead or lv.nstar is None:
+            return
+        if lv.nstar == "refine":
+            self._solve_refining(i, lv)
+            return
+        if max(lv.nstar, lv.steps) > len(lv.T):
             return
         sol = lv.run.solve()
         want = max(lv.nstar, lv.steps)
@@ -172,6 +192,33 @@ class IsolationMachine(MachineMixin, RuleBasedStateMachine):
         self.read_pending.add(i)
         self._foreign(i)
         self._check_all("Solve on solver %d" % i)
+
+    def _solve_refining(self, i, lv):
+        """Solve with refineSolution=True: compared in full with the same solver, driven the same way, alone."""
+        solo = Run(lv.spec["recipe"], lv.spec["params"], record=False, refine=True)
+        if lv.steps:
+            solo.step(lv.steps)
+        want = solo.solve()
+        sol = lv.run.solve()
+        a = [(y, v) for _, y, v in lv.run.problem.log]
+        b = [(y, v) for _, y, v in solo.problem.log]
+        if a != b:
+            fail("Solve with refineSolution=True on solver %d (after %d stepped trials): %d evaluations, the same "
+                 "solver alone makes %d (or at other points)" % (i, lv.steps, len(a), len(b)))
+        got = (best_of(sol), sol.numberOfGlobalTrials, sol.numberOfLocalTrials)
+        exp = (best_of(want), want.numberOfGlobalTrials, want.numberOfLocalTrials)
+        if got != exp:
+            fail("Solve with refineSolution=True on solver %d returns %r, the same solver alone %r" % (i, got, exp))
+        lv.dead = True                  # its log now ends with local evaluations: no further operations on it
+        lv.frozen = (a, got)            # from now on nothing about this solver may change
+        self.cls.add("refining-solve")
+        self._foreign(i)
+        self._check_all_but(i, "Solve (refining) on solver %d" % i)
+
+    def _check_all_but(self, i, what):
+        for j, lv in enumerate(self.live):
+            if j != i:
+                lv.check("after %s, solver %d: " % (what, j))
 
     @precondition(lambda self: any(lv.steps > 0 for lv in self.live))
     @rule(i=st.integers(0, 3))
